@@ -101,6 +101,14 @@ Proof.
   split; [exact b58_encode_never_fails|exact b58_decode_never_panics].
 Qed.
 
+(* length of the text: 11 characters per full block plus sizes[tail] *)
+Theorem C12_b58_text_length :
+  forall b s, b58_encode b = Ok s ->
+    length s = (11 * (length b / 8) + sz (length b mod 8))%nat.
+Proof.
+  exact b58_encode_length.
+Qed.
+
 (* tag :: spend ++ view ++ payment id? ++ first four bytes of H over everything before *)
 Theorem C12_layout :
   forall (H : bytes -> bytes) (valid_pk : bytes -> bool),
@@ -120,6 +128,16 @@ Theorem C12_length :
     length (addr_as_bytes H a) = match a_type a with Integrated _ => 77%nat | _ => 69%nat end.
 Proof.
   intros H valid_pk Hl Hv. exact (as_bytes_length H valid_pk Hl Hv).
+Qed.
+
+(* an address prints as 95 characters, 106 with a payment id *)
+Theorem C12_text_length :
+  forall (H : bytes -> bytes) (valid_pk : bytes -> bool),
+  (forall m, length (H m) = 32%nat) -> (forall k, valid_pk k = true -> length k = 32%nat) ->
+  forall a s, wf_addr valid_pk a -> addr_to_string H a = Ok s ->
+    length s = match a_type a with Integrated _ => 106%nat | _ => 95%nat end.
+Proof.
+  intros H valid_pk Hl Hv. exact (to_string_length H valid_pk Hl Hv).
 Qed.
 
 (* from_bytes (as_bytes a) = a *)
@@ -344,6 +362,10 @@ Check C12_b58_accepts_exactly :
 Check C12_b58_never_panics :
   (forall b, exists s, b58_encode b = Ok s) /\ (forall s, b58_decode s <> Panic).
 
+Check C12_b58_text_length :
+  forall b s, b58_encode b = Ok s ->
+    length s = (11 * (length b / 8) + sz (length b mod 8))%nat.
+
 Check C12_layout :
   forall (H : bytes -> bytes) (valid_pk : bytes -> bool),
   (forall m, length (H m) = 32%nat) -> (forall k, valid_pk k = true -> length k = 32%nat) ->
@@ -356,6 +378,12 @@ Check C12_length :
   (forall m, length (H m) = 32%nat) -> (forall k, valid_pk k = true -> length k = 32%nat) ->
   forall a, wf_addr valid_pk a ->
     length (addr_as_bytes H a) = match a_type a with Integrated _ => 77%nat | _ => 69%nat end.
+
+Check C12_text_length :
+  forall (H : bytes -> bytes) (valid_pk : bytes -> bool),
+  (forall m, length (H m) = 32%nat) -> (forall k, valid_pk k = true -> length k = 32%nat) ->
+  forall a s, wf_addr valid_pk a -> addr_to_string H a = Ok s ->
+    length s = match a_type a with Integrated _ => 106%nat | _ => 95%nat end.
 
 Check C12_roundtrip_bytes :
   forall (H : bytes -> bytes) (valid_pk : bytes -> bool),
@@ -449,8 +477,10 @@ Print Assumptions C12_b58_dec_enc.
 Print Assumptions C12_b58_enc_dec.
 Print Assumptions C12_b58_accepts_exactly.
 Print Assumptions C12_b58_never_panics.
+Print Assumptions C12_b58_text_length.
 Print Assumptions C12_layout.
 Print Assumptions C12_length.
+Print Assumptions C12_text_length.
 Print Assumptions C12_roundtrip_bytes.
 Print Assumptions C12_roundtrip_text.
 Print Assumptions C12_roundtrip_hex.
